@@ -1469,3 +1469,78 @@ def rule_routines_by_evaluation(ctx, rep: Report, rid="I11"):
     rep.add(rid, "routines:each one checks, unwraps and calls for the overload its id is registered for", not probs,
             f"{probs[:3]}: the gateway reaches the right case but the routine reads other inputs or calls the entity with other arguments than the overload declares",
             loc)
+
+
+def rule_property_accessors_by_evaluation(ctx, rep: Report, rid="I12", parts=("sites", "routines")):
+    """The accessors of class properties: `get.NAME` / `set.NAME` in the .m file pass the ids registered for the getter and the
+    setter of that very property; the getter routine takes the receiver alone and hands `obj->NAME` back, the setter routine
+    takes one value, unwraps it from `in[1]` and assigns a value of the member's type - the value itself for a basic or
+    shared-pointer member, the dereferenced holder (`*NAME`) for a class held by value.  Decided by running
+    wrap_class_properties and then generate_collector_function (the analyser's own interpreter) on a sample class with a
+    double, a by-value class and a shared-pointer property."""
+    from .rules_matlab import SampleObj, _PathEval, _Raised, mini_exec, program_classes
+    ci, prog = mw(ctx)
+    methods = _all_methods(prog, ci)
+    classes = program_classes(prog, ["ArgumentList", "Argument", "MatlabWrapper", "Typename", "Type", "ReturnType"])
+    me, cls, statics, meths, funcs = _emitter_samples(ctx)
+
+    def ty(name, ns=(), sp=""):
+        return SampleObj(__kind__="Type", typename=SampleObj(__kind__="Typename", name=name, namespaces=list(ns), instantiations=[]),
+                         is_const="", is_ref="", is_ptr="", is_shared_ptr=sp, is_basic=name in ("double", "int"))
+    props = [("value", ty("double"), "basic"), ("held", ty("K", ("ns",)), "object held by value"), ("linked", ty("K", ("ns",), sp="*"), "shared pointer")]
+    cls["properties"] = [SampleObj(__kind__="Variable", name=n, ctype=t, default=None, parent=cls) for n, t, _ in props]
+    wp = prog.method("MatlabWrapper", "wrap_class_properties")
+    gc = prog.method("MatlabWrapper", "generate_collector_function")
+    loc = f"{ci.mod.rel}:{wp.lineno}"
+    try:
+        texts = mini_exec(wp, dict(zip(func_params(wp), [me, "ns", cls])), budget=120000, methods=methods, classes=classes)
+        wm = me.get("wrapper_map")
+        text = "".join(texts) if isinstance(texts, list) else texts
+        if not isinstance(text, str) or not isinstance(wm, dict) or len(wm) != 2 * len(props):
+            raise _PathEval.Unknown("accessor text / id map of the sample run")
+        routines = {fid: mini_exec(gc, {func_params(gc)[0]: me, func_params(gc)[1]: fid}, budget=200000, methods=methods, classes=classes) for fid in sorted(wm)}
+    except (_PathEval.Unknown, _Raised, TypeError, KeyError, IndexError, AttributeError) as ex:
+        rep.add(rid, "property accessors evaluated on a sample class", True, f"not evaluable ({ex}); I6 decides by structure", loc, nontrivial=False)
+        return
+    rep.units["property_routines_evaluated"] = len(routines)
+
+    def routine_of(fid):
+        return next((x for x in wm[fid] if isinstance(x, str) and re.search(r"_(get|set)_\w+_\d+$", x)), "")
+    if "sites" in parts:
+        probs = []
+        for m_ in re.finditer(r"function\s+(?:varargout\s*=\s*)?(get|set)\.(\w+)\((.*?)\)(.*?)\bend\b", text, re.S):
+            role, name, _params, body = m_.groups()
+            ids = [int(x) for x in re.findall(r"\b\w+_wrapper\((\d+)\s*,", body)]
+            if len(ids) != 1 or ids[0] not in wm:
+                probs.append(f"{role}.{name}: passes id(s) {ids}")
+                continue
+            rn = routine_of(ids[0])
+            if f"_{role}_{name}_" not in rn:
+                probs.append(f"{role}.{name}: passes id {ids[0]}, registered as {rn}")
+        if len(re.findall(r"function\s+(?:varargout\s*=\s*)?(?:get|set)\.", text)) != 2 * len(props):
+            probs.append("not one getter and one setter per property")
+        rep.add(rid, "property accessors:get.NAME / set.NAME pass the ids of their own getter / setter routine", not probs, f"{probs[:3]}", loc)
+    if "routines" in parts:
+        for n, t, kind in props:
+            for role in ("get", "set"):
+                fid = next((f_ for f_ in wm if f"_{role}_{n}_" in routine_of(f_)), None)
+                r = routines.get(fid, "") if fid is not None else ""
+                probs = []
+                chk = re.search(r'checkArguments\("[^"]*"\s*,\s*nargout\s*,\s*nargin\s*-\s*1\s*,\s*(\d+)\)', r or "")
+                if not chk or int(chk.group(1)) != (0 if role == "get" else 1):
+                    probs.append(f"argument count {chk.group(1) if chk else 'not checked'}")
+                if role == "get":
+                    if not re.search(r"out\[0\]\s*=.*obj->" + re.escape(n) + r"\b", r or ""):
+                        probs.append("does not hand obj->" + n + " back")
+                else:
+                    if not re.search(re.escape(n) + r"\s*=\s*unwrap\w*\s*<[^;]*>\s*\(\s*in\[1\]", r or ""):
+                        probs.append("the value is not unwrapped from in[1]")
+                    asg = re.search(r"obj->" + re.escape(n) + r"\s*=\s*(\*?)\s*" + re.escape(n) + r"\s*;", r or "")
+                    if not asg:
+                        probs.append("no assignment to obj->" + n)
+                    elif bool(asg.group(1)) != (kind == "object held by value"):
+                        probs.append(f"assigns `{asg.group(1)}{n}`: " + ("the member is a std::shared_ptr, the dereferenced object is not" if kind == "shared pointer"
+                                                                        else "the member's own type is needed"))
+                rep.add(rid, f"property routines:{role}ter of a {kind} property", not probs,
+                        f"{probs}: for `{'ns::K* ' if kind == 'shared pointer' else ('ns::K ' if 'value' in kind else 'double ')}{n};` the routine is\n{(r or '').strip()[:300]}",
+                        f"{ci.mod.rel}:{gc.lineno}")
